@@ -142,7 +142,7 @@ var (
 	protoAlpha = []string{"netrpc", "\x00", "", "grpc", "GRPC", "bogus"}
 	certAlpha  = []string{"\x00", "", "0123456789", strings.Repeat("!", 60), strings.Repeat("QUJD", 15), "REAL", strings.Repeat("\r", 60), "REAL2", "REALJUNK", "REALCR"}
 	muxAlpha   = []string{"\x00", "", "true", "false", "1", "yes"}
-	shapeAlpha = []string{"LF", "CRLF", "blanks", "extra8", "trunc3", "trunc2", "trunc1", "trunc0", "nonl-eof", "nonl-silence", "emptyfirst", "long70k", "exit-before", "silence", "closed-alive", "nonl-closed-alive"}
+	shapeAlpha = []string{"LF", "CRLF", "blanks", "extra8", "trunc3", "trunc2", "trunc1", "trunc0", "nonl-eof", "nonl-silence", "emptyfirst", "long70k", "exit-before", "silence", "closed-alive", "nonl-closed-alive", "tail6k"}
 )
 
 func (l lineSpec) key() string {
@@ -226,6 +226,14 @@ func (l lineSpec) render() (out []byte, after string) {
 		return nil, "exit"
 	case "silence":
 		return nil, "stay"
+	case "tail6k":
+		// the plugin keeps printing right after its handshake line, in the same write: 6000 more bytes without a newline,
+		// which begin with text shaped like the line itself but naming another address
+		tail := strings.Replace(line, "1234", "2222", 1)
+		if tail == line {
+			tail = "1|1|tcp|127.0.0.1:2222|netrpc"
+		}
+		return []byte(line + "\n" + tail + strings.Repeat("x", 6000-len(tail))), "stay"
 	}
 	return []byte(line + "\n"), after
 }
